@@ -1,5 +1,93 @@
 import Ecal.Drivers.Util
+import Ecal.Model.Path
+/-!
+Model driver of C17. Payloads (space separated, strings hex encoded, `-` = empty):
+
+* `P <a> <b>` — the path primitives: result `<Clean a> <Join a b> <Rel a b | ERR>`.
+* `R|I <cwd> <files> <root> <rootpos> <pre|~> <depth> <alphabet>` — `Resolve` (directly / through
+  an `import` statement): the paths are `pre` followed by every sequence of exactly `depth`
+  alphabet elements, joined by `/` (`~` = no `pre`). `files` is the comma separated list of
+  the existing files; `cwd`, `files`, `rootpos` are relative to the base directory `B` of the
+  tree. A string starting with `@` stands for `B` followed by the rest; the model uses the
+  absolute clean one-element path `/^B` for `B` (the harness substitutes the real directory).
+  Result: per path `E` (error), `I<n>` (content of file n, inside the root) or `O<n>`
+  (content of file n, OUTSIDE the root), comma separated. `rootpos` is not used by the model:
+  it computes the root's position by walking the root string.
+-/
 namespace Ecal.Drv.C17
-/-- model driver of property C17 (stub: not implemented yet) -/
-def run (_args : List String) : IO Unit := Ecal.Drv.lineLoop fun _ => "unimplemented"
+open Ecal.Drv Ecal.Path
+
+def modelB : Str := [47, 94, 66]
+
+def subst (s : Str) : Str :=
+  match s with
+  | 64 :: rest => modelB ++ rest
+  | _ => s
+
+def optStr : Option Str → String
+  | some s => hexEnc s
+  | none => "ERR"
+
+def splitComma (s : Str) : List Str :=
+  if s = [] then [] else
+  let rec go : Str → Str → List Str → List Str
+    | [], cur, acc => (cur.reverse :: acc).reverse
+    | c :: cs, cur, acc => if c = 44 then go cs [] (cur.reverse :: acc) else go cs (c :: cur) acc
+  go s [] []
+
+/-- position of a `B`-relative string -/
+def relPos (s : Str) : Pos := [94, 66] :: (elems s).filter (· ≠ [])
+
+def isPrefixOf (a b : Pos) : Bool := a.length ≤ b.length && b.take a.length == a
+
+def allExt (alpha : List Str) : Nat → List (List Str)
+  | 0 => [[]]
+  | d + 1 => (allExt alpha d).flatMap fun e => alpha.map fun a => e ++ [a]
+
+def findIdx (files : List Pos) (p : Pos) : Option Nat :=
+  let rec go : List Pos → Nat → Option Nat
+    | [], _ => none
+    | f :: fs, i => if f = p then some i else go fs (i + 1)
+  go files 0
+
+def outcome (cwd : Pos) (files : List Pos) (root p : Str) : String :=
+  match resolve root p with
+  | .opened q =>
+    let pos := walkStr cwd q
+    match findIdx files pos with
+    | none => "E"
+    | some i =>
+      let rootPos := walkStr cwd root
+      (if isPrefixOf rootPos pos then "I" else "O") ++ toString i
+  | _ => "E"
+
+def runCase (payload : String) : String :=
+  match payload.splitOn " " with
+  | ["P", a, b] =>
+    match hexDecode a, hexDecode b with
+    | some a, some b =>
+      hexEnc (cleanStr a) ++ " " ++ hexEnc (joinStr a b) ++ " " ++ optStr (relStr a b) ++ "\tnt=1"
+    | _, _ => "bad-payload"
+  | [kind, cwd, files, root, _rootpos, pre, depth, alpha] =>
+    if kind ≠ "R" ∧ kind ≠ "I" then "bad-payload" else
+    match hexDecode cwd, hexDecode files, hexDecode root, depth.toNat?, hexDecode alpha with
+    | some cwd, some files, some root, some depth, some alpha =>
+      let pre? : Option (Option Str) := if pre = "~" then some none else (hexDecode pre).map some
+      match pre? with
+      | none => "bad-payload"
+      | some pre =>
+        let cwdPos := relPos cwd
+        let filePos := (splitComma files).map relPos
+        let root := subst root
+        let alpha := splitComma alpha
+        let paths := (allExt alpha depth).map fun ext =>
+          match pre with
+          | some p => subst p ++ ext.flatMap (fun e => 47 :: e)
+          | none => joinSep ext
+        let rs := paths.map (outcome cwdPos filePos root)
+        ",".intercalate rs ++ (if rs.any (· ≠ "E") then "\tnt=1" else "")
+    | _, _, _, _, _ => "bad-payload"
+  | _ => "bad-payload"
+
+def run (_args : List String) : IO Unit := lineLoop runCase
 end Ecal.Drv.C17
